@@ -62,7 +62,14 @@ class _RequestHandler:
         self.logger.info("<= [%s]: %s", client_address, data)
         try:
             response = {}
-            request = json.loads(data)
+            try:
+                request = json.loads(data)
+            except (ValueError, RecursionError) as e:
+                # Besides syntax errors (JSONDecodeError), the parser fails on
+                # too deeply nested documents (RecursionError) and on numbers
+                # beyond the interpreter's limits (ValueError).
+                # Those are format errors too.
+                raise json.decoder.JSONDecodeError(str(e), "", 0)
             self.logger.debug("Delivering request")
             response = self.protocol.handle_request(request)
             self.logger.debug("Got response: %s", response)
